@@ -8,6 +8,7 @@
 //!   gcverif-layout --prop C17|C18|C11|C03|C04 [--tier quick|thorough] [--seed N] [--start IDX]
 //!                  [--only FILE] [--list]
 
+mod c04;
 mod c11;
 mod c17;
 mod c18;
@@ -15,6 +16,7 @@ mod common;
 mod track;
 mod types;
 
+use c04::*;
 use c11::*;
 use c17::*;
 use c18::*;
@@ -346,6 +348,39 @@ fn c18(cx: &mut Cx) {
     ctor_grid(cx);
 }
 
+/// C04, layout clause: alloc / release pairing over every release history.
+fn c04(cx: &mut Cx) {
+    pair_sized::<V1<0>>(cx);
+    pair_sized::<()>(cx);
+    pair_sized::<V2<0>>(cx);
+    pair_sized::<V8<0>>(cx);
+    pair_sized::<V32<0>>(cx);
+    pair_sized::<V4096<0>>(cx);
+    pair_sized::<V1<1>>(cx);
+    pair_sized::<V1<3>>(cx);
+    pair_sized::<u64>(cx);
+    pair_sized::<V8<24>>(cx);
+    pair_sized::<V16<16>>(cx);
+    pair_sized::<V64<65>>(cx);
+    pair_sized::<V4096<1>>(cx);
+    pair_zst_cache(cx);
+    let lens: Vec<usize> = if cx.thorough { vec![0, 1, 2, 3, 7, 8, 64, 1000] } else { vec![0, 1, 3, 8] };
+    for &len in &lens {
+        pair_slice::<u8>(cx, len);
+        pair_slice::<[u8; 3]>(cx, len);
+        pair_slice::<u64>(cx, len);
+        pair_slice::<V64<64>>(cx, len);
+        pair_slice::<()>(cx, len);
+        pair_slice::<V64<0>>(cx, len);
+        pair_str(cx, len);
+        pair_swh::<(), u8>(cx, len);
+        pair_swh::<u8, u32>(cx, len);
+        pair_swh::<u64, ()>(cx, len);
+        pair_swh::<V64<0>, V8<0>>(cx, len);
+        pair_swh::<V32<32>, [u8; 3]>(cx, len);
+    }
+}
+
 /// C11 (panic safety), builder clause: repeated builder faults on one arena.
 fn c11(cx: &mut Cx) {
     macro_rules! swh_f {
@@ -451,6 +486,9 @@ fn main() {
     }
     if prop == "C11" || prop == "all" {
         c11(&mut cx);
+    }
+    if prop == "C04" || prop == "all" {
+        c04(&mut cx);
     }
     if prop == "C03" {
         // C03's clause "no value destructed / no allocation released while a callback runs",
